@@ -510,7 +510,7 @@ void campaign(Ctx& ctx)
 	bool const thorough = ctx.opt.tier == "thorough";
 	if (c10) enumerate(ctx, thorough ? 5 : 4);
 	if (ctx.failed) return;
-	int const n = thorough ? 120000 : 2500;
+	int const n = thorough ? 80000 : 2500;
 	ctx.rc_campaign("direct injection (short)", gen_direct(c10, 12), n, 40, 1);
 	ctx.rc_campaign("direct injection (long)", gen_direct(c10, 200), n / 3, 200, 2);
 	ctx.rc_campaign("reply during forward", gen_pingpong(), thorough ? 40000 : 1200, 60, 5);
